@@ -99,6 +99,14 @@ TABLE = {
             "per-obstacle answers. All obstacle descriptors x t in 0..7 and small scenarios x filters are executed on real "
             "objects and TLC validates occupancies (exact vertices), states, enclosure flags and query results.",
             "TLC, exact lattice geometry, shapely `covers` with 1e-9 buffer for the enclosure flags"),
+    "C18": ("ReadOnly.tla / MC_ReadOnly.tla / Trace_ReadOnly.tla",
+            "The contract is the frame condition snapshot' = snapshot for 16 read-only operations; the specification's content "
+            "is the archetype space (8 scenario features on which side effects are conditional) x operation order; TLC checks "
+            "the frame condition over all archetype subsets x sequences (<= 3) and the two deviation constants reproduce the "
+            "shipped side effects. Every (archetype, operation pair) and seeded random 6-operation sequences run on real "
+            "objects; a structural snapshot of scenario + planning problems (caches excluded by name) and the XML export are "
+            "taken before and after EACH operation and TLC validates before = after, naming operation and first differing path.",
+            "TLC, the attribute-walk snapshot with its cache exclusion list, SHA-1 of date-stripped XML exports"),
 }
 
 PENDING_REASON = "check not built yet in this round (specification module planned in DESIGN.md section 4); not claimed"
